@@ -17,17 +17,19 @@ CASE_TIMEOUT = 1500
 RULE = (
     "systems of 1-4 components (every archetype + small molecules), system mass from 0.5x to ~60x the mean molecule mass, specified by absolute masses "
     "or n-1 percentages + one absolute mass; System.generator is iterated with a spying Generator (through the property's underlying function): every "
-    "yielded molecule must be fully generated and pass the residue audit (C05/C06 oracle) against exactly one declared component; with the library's own "
+    "yielded molecule must be fully generated (also probed with components that are generable but can never be completed: missing suffix, lone token with a descriptor -- they must be refused, alone or among ordinary components) and pass the residue audit (C05/C06 oracle) against exactly one declared component; with the library's own "
     "left-to-right partial sums s_k the sequence must end at the first k with s_k >= M; a non-generable system must refuse both iteration and "
     "System.generate; System.generate must return a fully generated member. Non-trivial: >= 2 components and >= 5 molecules yielded; distinct by system text."
 )
 ASSUMPTIONS = ["residue ids of a system must stay <= 25 (library names residues A..Z); larger generated systems are skipped and counted"]
-FLOORS = {"quick": {"systems_iterated": 60, "molecules_yielded": 1000, "nongenerable_probed": 8, "exact_boundary_hit": 30, "distinct_nontrivial": 15}, "thorough": {"systems_iterated": 1500, "molecules_yielded": 30000}}
+FLOORS = {"quick": {"open_component_systems": 12, "open_generate_refused": 20, "systems_iterated": 60, "molecules_yielded": 1000, "nongenerable_probed": 8, "exact_boundary_hit": 30, "distinct_nontrivial": 15}, "thorough": {"systems_iterated": 1500, "molecules_yielded": 30000}}
 
 
 def plan(tier, seed):
     n = 96 if tier == "quick" else 2000
     cases = [{"seed": seed * 1000507 + i, "kind": "gen" if i % 6 else "nongen"} for i in range(n)]
+    for i in range(24 if tier == "quick" else 400):
+        cases.append({"seed": seed * 1000537 + i, "kind": "open"})
     for i in range(16 if tier == "quick" else 200):
         cases.append({"seed": seed * 1000517 + i, "kind": "exact"})
     return cases
@@ -97,6 +99,8 @@ def run_case(case):
     sample = None
     if case["kind"] == "exact":
         return run_exact(case, rng)
+    if case["kind"] == "open":
+        return run_open(case, rng)
     s = make_system(rng)
     if case["kind"] == "nongen" and (case["seed"] // 6) % 2 == 1:
         # fully specified masses, but one COMPONENT is not generable (object without distribution / negative weight);
@@ -343,3 +347,75 @@ def run_exact(case, rng):
             sample = {"exact_system": text, "system_mass": sysM, "molecules": len(seq), "boundary_hit_exactly": hit}
     cnt["evaluations"] = cnt["molecules_yielded"]
     return {"viol": viol, "cnt": dict(cnt), "nt": [], "sample": sample}
+
+
+def run_open(case, rng):
+    """a component that is generable but can never be completed (a stochastic object whose right terminal is left open because the suffix is
+    missing, or a lone token that carries a bond descriptor), alone or next to ordinary components: whatever System.generate returns and whatever
+    the generator yields must be fully generated -- the open component has to be refused, not handed out"""
+    import gbigsmiles
+    from ..ast import Desc, StochAst, TokenAst
+
+    cnt = collections.Counter()
+    viol = []
+    n = rng.choice([1, 1, 2, 3])
+    mols = []
+    for _ in range(n - 1):
+        mols.append(MolAst([gen.plain_token(rng.choice(["CCO", "C1CCOC1", "CC(=O)C", "CCCCCC", "CO"]))], arch="small") if rng.random() < 0.5 else gen.make_molecule(rng, rng.choice(["endinit", "stepgrowth", "homo"]), small=True, families=["gauss", "uniform"], mean_units=2))
+    mode = rng.choice(["no-suffix", "no-suffix", "lone-token"])
+    if mode == "no-suffix":
+        for _try in range(30):
+            m = gen.make_molecule(rng, rng.choice(["homo", "random", "block", "graft", "hyper", "comb"]), small=True, families=["gauss", "uniform"], mean_units=2)
+            if len(m.elements) >= 3 and isinstance(m.elements[-1], TokenAst) and isinstance(m.elements[-2], StochAst) and m.elements[-2].right.sym:
+                m.elements = m.elements[:-1]
+                break
+        else:
+            return {"viol": [], "cnt": {"open_no_subject": 1}, "nt": []}
+    else:
+        t = gen.build_token(rng, rng.choice(["CC", "CCO", "CCC", "Cc1ccccc1"]), [Desc(rng.choice("$<>"), rng.choice([None, 1]))], "ends")
+        m = MolAst([t], arch="lone-token")
+    mols.insert(rng.randrange(len(mols) + 1), m)
+    s = SysAst(mols)
+    fr, M = assign(rng, s, rng.choice([3, 8]))
+    for mm, f in zip(s.mols, fr):
+        mm.mixture = ("abs", max(f * M, 1.0))
+    text = s.to_text()
+    try:
+        S = gbigsmiles.System(text)
+    except Exception:
+        return {"viol": [], "cnt": {"open_rejected_at_parse": 1}, "nt": []}
+    cnt["open_component_systems"] += 1
+    cnt["open_mode_" + mode] += 1
+    label = f"System({text!r})"
+    if not S.generable:
+        cnt["open_reports_not_generable"] += 1
+    for k in range(8):
+        trace.reset()
+        try:
+            with time_limit(60):
+                g = S.generate(rng=W.spy(case["seed"] + k))
+        except StepTimeout:
+            cnt["watchdog"] += 1
+            continue
+        except Exception:
+            cnt["open_generate_refused"] += 1
+            continue
+        cnt["open_generate_returned"] += 1
+        if not g.fully_generated:
+            viol.append({"cls": "c13.single-generation-partial", "msg": f"{label}: System.generate returned {g.smiles} with {len(g.bond_descriptors)} open descriptors (component {m.to_text()!r} can never be completed)", "text": text})
+            break
+    try:
+        with time_limit(120):
+            for j, g in enumerate(run_generator(S, W.spy(case["seed"] + 100))):
+                cnt["open_molecules_yielded"] += 1
+                if not g.fully_generated:
+                    viol.append({"cls": "c13.partial-molecule-yielded", "msg": f"{label}: the generator yielded {g.smiles} with {len(g.bond_descriptors)} open descriptors", "text": text})
+                    break
+                if j > 400:
+                    break
+    except StepTimeout:
+        cnt["watchdog"] += 1
+    except Exception:
+        cnt["open_generator_refused"] += 1
+    cnt["evaluations"] = cnt["open_generate_returned"] + cnt["open_generate_refused"] + cnt["open_molecules_yielded"]
+    return {"viol": viol, "cnt": dict(cnt), "nt": [], "sample": {"system_with_open_component": text, "open_component": m.to_text(), "mode": mode}}
